@@ -137,10 +137,10 @@ def classify_call(sig, shape, direction: str) -> str:
         keys = ds[0][1]
         star_names = [NAMES[i] for i, (k, _) in enumerate(sig) if k == "S"]
         kws = [a[1] for a in shape if a[0] == "kw"]
-        if any(k in star_names for k in keys):
-            feat = "**TypedDict-key-names-star-formal"
-        elif any(k in kws for k in keys):
+        if any(k in kws for k in keys):
             feat = "**TypedDict-key-duplicates-keyword"
+        elif any(k in star_names for k in keys):
+            feat = "**TypedDict-key-names-star-formal"
         else:
             npos = sum(1 for a in shape if a[0] == "pos") + sum(a[1] for a in shape if a[0] == "star")
             posnames = [NAMES[i] for i, (k, _) in enumerate(sig) if k == "K"]
